@@ -162,6 +162,7 @@ type CtxTimeline struct {
 	NamedFreq               uint64   // frequency as named by the consumer (0 = never named: defaults to the timeout)
 	NamedTimeout            int64
 	NamedSet                bool
+	NamedThreshold          uint32 // response threshold as named by the owning module (create / accepted update)
 }
 
 type Mon struct {
